@@ -14,7 +14,7 @@ RULES = {
     "REFRESH-GAP": "while requested and running a subscription is sent again no later than one refresh interval after the previous Subscribe (or after the request / start)",
 }
 RULE_TEXT = (
-    "random plans: 4 eventgroups (IPv4 and IPv6 local endpoints, UDP and TCP, two services) x 3 servers, 3-25 operations "
+    "random plans: 4 eventgroups (IPv4 and IPv6 local endpoints, UDP and TCP, two services) x 3-4 servers (a third of the plans request something from every server before the first round), 3-25 operations "
     "(subscribe, stop-subscribe without duplicates, subscriber start / stop, busy periods) at random instants, several in one instant, "
     "and at +-100us / +-res/4 / exactly at the refresh ticks; finite TTL with refresh 0.5 / 1 / 3 s and infinite TTL without refresh; "
     "timer-phase and I/O-phase placement of the calls. non-trivial = at least one Subscribe entry was judged; distinct = interleaving signature"
@@ -45,6 +45,16 @@ def gen(seed, idx, tier):
     requested = set()
     starts = []
     alive = False
+    NS = r.choice([3, 3, 4])  # servers
+    if r.random() < 0.3:
+        # a full house from the start: something is requested from every server before the first round
+        for pi in range(NS):
+            ei = r.randrange(len(EGS))
+            ops.append({"k": "call", "t": 0.0, "f": "subscribe", "a": [ei, pi]})
+            requested.add((ei, pi))
+        ops.append({"k": "call", "t": 0.0, "f": "sub_start", "a": []})
+        starts.append(0.0)
+        alive = True
     for j in range(r.randint(3, 25)):
         u = r.random()
         if u < 0.3 and ops:
@@ -58,9 +68,20 @@ def gen(seed, idx, tier):
         else:
             t = round(t + r.uniform(0, 1.2), 6)
         ph = r.choice(["io", "io", "timer", "late"])
+        behind = False
+        if starts and r.random() < 0.15:
+            behind = True
+            # right behind the start of a round: the instant of a (re)start or of a refresh tick, after the timers
+            # of that instant, or a hair later (the round may still be under way)
+            tick = starts[-1] + (r.randint(0, 4) * refresh if refresh else 0.0)
+            if tick >= t - 1e-9:
+                t = round(tick + r.choice([0.0, 0.0, RES / 4]), 9)
+                ph = "late"
+            else:
+                behind = False
         x = r.random()
         if x < 0.40:
-            ei, pi = r.randrange(len(EGS)), r.randrange(3)
+            ei, pi = r.randrange(len(EGS)), r.randrange(NS)
             if (ei, pi) in requested:
                 f, a = "stop_subscribe", [ei, pi]
                 requested.discard((ei, pi))
@@ -85,6 +106,8 @@ def gen(seed, idx, tier):
         op = {"k": "call", "t": t, "f": f, "a": a}
         if ph != "io":
             op["ph"] = ph
+        if behind:
+            op["defer"] = r.randint(0, 4)  # this many loop iterations later: in the middle of the round, if it takes several
         ops.append(op)
     until = t + (2 * refresh + 0.5 if refresh else 1.0)
     return {"engine": "single", "property": ID, "class": "random", "seed": seed, "cfg": cfg, "ops": ops, "until": round(until, 6)}
